@@ -70,7 +70,7 @@ class LockScenario:
         self.violations = []
         self.acquired = {}
         shared = make() if self.mode == 'shared' else None
-        self.caches = {i + 1: (shared or make()) for i in range(self.n)}
+        self.caches = {i + 1: (shared if shared is not None else make()) for i in range(self.n)}
         self.objects = list({id(c): c for c in self.caches.values()}.values())
         cap = self.value if self.kind == 'semaphore' else 1
         self.capacity = cap
@@ -309,6 +309,104 @@ def fork_unit(unit):
     return part
 
 
+SPAWN_SCRIPT = r"""
+import base64, pickle, sys, time
+sys.path.insert(0, sys.argv[1])
+import diskcache as dc
+
+class Waits(BaseException):
+    pass
+
+def no_sleep(seconds):
+    raise Waits()
+
+time.sleep = no_sleep
+mode, kind, directory, blob = sys.argv[2:6]
+if mode == 'pickled':
+    lock = pickle.loads(base64.b64decode(blob))
+else:
+    cache = dc.FanoutCache(directory, shards=3)
+    key = ('jobs', 'report-123')
+    lock = {'lock': dc.Lock, 'rlock': dc.RLock}.get(kind, dc.BoundedSemaphore)(cache, key)
+out = []
+for step in sys.argv[6:]:
+    try:
+        getattr(lock, step)()
+        out.append('ok')
+    except Waits:
+        out.append('waits')
+    except BaseException as exc:
+        out.append(type(exc).__name__)
+print(','.join(out))
+"""
+
+
+def spawn_unit(unit):
+    """Separately started processes (own interpreter, own hash seed): the
+    parent holds a lock whose key is a tuple containing text, on a
+    FanoutCache with 3 shards; contenders either rebuild the lock from the
+    directory or receive the pickled lock object."""
+    import base64
+    import diskcache as dc
+    import os
+    import pickle
+    import subprocess
+    import sys
+    from ..env import REPO
+    _, kind = unit
+    part = {'states': 0, 'transitions': 0, 'executions': 0, 'violations': [],
+            'outcomes': {}, 'samples': [], 'caps': [],
+            'label': 'spawn/' + kind}
+    root = run.fresh_dir('sp')
+    ENV.reset(run.scratch())
+    ENV.set_client(0)
+    cache = dc.FanoutCache(root, shards=3)
+    key = ('jobs', 'report-123')
+    cls = {'lock': dc.Lock, 'rlock': dc.RLock}.get(kind, dc.BoundedSemaphore)
+    lock = cls(cache, key)
+    blob = base64.b64encode(pickle.dumps(lock)).decode()
+
+    def contender(mode, seed, steps):
+        env = dict(os.environ, PYTHONHASHSEED=str(seed),
+                   PYTHONDONTWRITEBYTECODE='1')
+        env.pop('LD_PRELOAD', None)
+        out = subprocess.run(
+            [sys.executable, '-c', SPAWN_SCRIPT, REPO, mode, kind, root, blob]
+            + steps, env=env, capture_output=True, text=True, timeout=120)
+        return (out.stdout.strip().split(',') if out.returncode == 0
+                else ['child-failed: ' + out.stderr[-200:]])
+
+    def expect(tag, got, want):
+        part['transitions'] += 1
+        part['executions'] += 1
+        part['outcomes'][tag.split('@')[0] + ':' + ','.join(got)] = 1
+        if got != want:
+            part['violations'].append({
+                'signature': {'clause': 'process-exclusion', 'kind': kind,
+                              'step': tag.split('@')[0]},
+                'message': 'process-exclusion: %s on FanoutCache(3 shards) '
+                           'with key %r, %s: contender observed %r, expected '
+                           '%r' % (kind, key, tag, got, want),
+                'replay': {'engine': 'SCHED', 'module': 'props.c15',
+                           'spawn': list(unit)}})
+
+    try:
+        lock.acquire()
+        for mode in ('rebuilt', 'pickled'):
+            for seed in (1, 2, 3):
+                expect('%s acquire-while-held@seed%d' % (mode, seed),
+                       contender(mode, seed, ['acquire']), ['waits'])
+        lock.release()
+        for mode in ('rebuilt', 'pickled'):
+            expect('%s acquire-when-free' % mode,
+                   contender(mode, 4, ['acquire', 'release']), ['ok', 'ok'])
+        part['states'] = part['transitions']
+    finally:
+        cache.close()
+        run.drop(root)
+    return part
+
+
 def plan(tier):
     units = []
     kinds = [('lock', 1), ('rlock', 1), ('semaphore', 1), ('semaphore', 2),
@@ -342,6 +440,8 @@ def plan(tier):
 def work(unit):
     if unit[0] == 'fork':
         return fork_unit(unit[:5])
+    if unit[0] == 'spawn':
+        return spawn_unit(unit[:2])
     kind, n, rounds, value, target, mode, script, bound, cap = unit
     part = sched.explore(
         lambda: LockScenario(kind, n, rounds, value, target, mode, script),
@@ -360,6 +460,8 @@ def main(tier, seed):
             for inherited in (True, False):
                 for depth in ((1, 2) if kind == 'rlock' else (1,)):
                     units.append(('fork', kind, target, inherited, depth))
+    for kind in ('lock', 'rlock', 'semaphore'):
+        units.append(('spawn', kind))
     units = run.shuffled(units, seed)
     import os
     for part in run.pmap(work, units):
@@ -371,6 +473,9 @@ def main(tier, seed):
         'contenders': '2 (all interleavings, 1 round; 2 rounds with <=2 '
                       'preemptions in quick, all in thorough), 3-4 '
                       'preemption-bounded',
+        'spawned': 'separately started interpreters with hash seeds 1..4: '
+                   'lock with a tuple key on FanoutCache(3 shards), rebuilt '
+                   'from the directory or received as a pickled object',
         'processes': 'real fork: parent holds Lock/RLock(1,2 deep)/Semaphore, '
                      'child with the inherited or its own object must wait / '
                      'be refused release / acquire once free; Cache and '
@@ -389,6 +494,12 @@ def main(tier, seed):
 
 
 def replay(rp):
+    if 'spawn' in rp:
+        run._worker_init()
+        part = spawn_unit(tuple(rp['spawn']))
+        for v in part['violations'][:3]:
+            print('REPRODUCED:', v['message'])
+        return 1 if part['violations'] else 0
     if 'fork' in rp:
         run._worker_init()
         part = fork_unit(tuple(rp['fork']))
